@@ -204,6 +204,9 @@ def _bigfile(line):
         _files[key] = p_
     path = _files[key]
     mism = []
+    o_ = off or 0
+    l_ = (nbytes * 8 - o_) if ln is None else ln
+    base = Bits(bytes=data)[o_:o_ + l_]          # the window in STORED order, taken before lsb0 may be switched on
     with options(lsb0=(lsb0 == "1")):
         def fresh():
             kw = {}
@@ -219,8 +222,7 @@ def _bigfile(line):
         total = nbytes * 8
         l = (total - o) if ln is None else ln
         def twin():
-            t = Bits(bytes=data)
-            return CLASSES[cls](t[o:o + l])
+            return CLASSES[cls](base)
         nd = Bits(bytes=needle)
         r2 = _random.Random(int(opseed))
         a0 = r2.randrange(0, max(l - 100, 1))
